@@ -106,3 +106,40 @@ func Check(ms []Mapper, fail func(string, ...interface{})) int {
 	}
 	return n
 }
+
+// Pages: both ends of every 8 KiB page of the bus and of the pak space, both directions.
+func Pages(ms []Mapper, fail func(string, ...interface{})) int {
+	n := 0
+	for _, m := range ms {
+		for page := uint32(0); page < 2048; page++ {
+			for _, a := range []uint32{page << 13, page<<13 | 0x1FFF} {
+				n++
+				func() {
+					defer func() {
+						if e := recover(); e != nil {
+							fail("%s: a call with $%06x failed: %v", m.Name, a, e)
+						}
+					}()
+					if p, err := m.B2P(a); err == nil {
+						b2, err2 := m.P2B(p)
+						if err2 != nil {
+							fail("%s: B2P($%06x)=$%06x but P2B of that fails: %v", m.Name, a, p, err2)
+						} else if p2, err3 := m.B2P(b2); err3 != nil || p2 != p {
+							fail("%s: B2P($%06x)=$%06x, P2B=$%06x, B2P again=($%06x,%v)", m.Name, a, p, b2, p2, err3)
+						}
+					}
+					if b, err := m.P2B(a); err == nil {
+						if q, qerr := m.B2P(b); qerr != nil {
+							fail("%s: P2B($%06x)=$%06x which B2P does not map", m.Name, a, b)
+						} else if class(q) != class(a) || q&0x1FFF != a&0x1FFF {
+							fail("%s: P2B($%06x)=$%06x -> $%06x: another class or offset", m.Name, a, b, q)
+						}
+					} else if class(a) != "none" {
+						fail("%s: P2B($%06x) rejected although the address lies in the %s window", m.Name, a, class(a))
+					}
+				}()
+			}
+		}
+	}
+	return n
+}
